@@ -149,12 +149,17 @@ func c02Case(c *core.Ctx, pc parseCase) {
 func init() {
 	core.Register(&core.Check{
 		ID:          "C02",
-		Rule:        "cases = known-finding witnesses ++ PRNG mix of {hostile inputs (of which the silently accepted ones count), corpus snippets, line-terminator rewrites, block-crossing concatenations, generated programs in PRNG trivia layouts} x PRNG version; every parse that delivers no error is printed and compared byte for byte with its source; non-trivial = silent parse whose tree has >= 2 nodes; distinct by (input bytes, version)",
+		Rule:        "cases = known-finding witnesses ++ PRNG mix of {hostile inputs (of which the silently accepted ones count), corpus snippets, line-terminator rewrites, block-crossing concatenations, generated programs in PRNG trivia layouts} x PRNG version; every parse that delivers no error is printed and compared byte for byte with its source; the first 5 (quick) / 40 (thorough) cases run the real CLI with -pb over a generated directory of 160 / 600 silently parsing files (beginning with an open tag, inline HTML or a shebang; ending in PHP mode, a close tag or trailing HTML) under 5 versions and GOMAXPROCS 1/2/16: every file must be left byte-identical; non-trivial = silent parse whose tree has >= 2 nodes; distinct by (input bytes, version)",
 		Assumptions: []string{"an input is judged only when the parser reported no error for it (whether it is valid PHP is C03/C06's business)"},
 		Plan:        func(p core.Params) int { return p.Pick(200000, 4000000) },
 		Run: func(c *core.Ctx, idx int) {
+			if idx < c.P.Pick(5, 40) {
+				c02CLI(c, idx)
+				return
+			}
 			c02Case(c, genParseCase(c.P.Seed, "C02", idx, 30))
 		},
+		CaseCPU: 120,
 		RunWitness: func(c *core.Ctx, w core.Witness) {
 			c02Case(c, parseCase{w.Src, w.Ver, "witness"})
 		},
